@@ -333,6 +333,7 @@ Definition rel_pinned : list (string * list ef) := [
      Ef "ret" [];
      Ef "end" [];
      Ef "store" ["$recv.createFuncs"; "$0"; "$3.CreateConnFn"];
+     Ef "store" ["$recv.endpoints"; "$0"; "$0 + ""#"" + strconv.FormatUint(atomic.AddUint64(&httpGroupJoinSeq, 1), 10)"];
      Ef "assign" ["$recv.pxyNames"; "="; "append($recv.pxyNames, $0)"];
      Ef "ret" ["nil"]
   ]);
@@ -342,6 +343,7 @@ Definition rel_pinned : list (string * list ef) := [
      Ef "call" ["$recv.mu.Unlock"];
      Ef "end" [];
      Ef "delete" ["$recv.createFuncs"; "$0"];
+     Ef "delete" ["$recv.endpoints"; "$0"];
      Ef "loop" ["range"; "$recv.pxyNames"; "$l0"; "$l1"];
      Ef "if" ["$l1 == $0"];
      Ef "assign" ["$recv.pxyNames"; "="; "append($recv.pxyNames[:$l0], $recv.pxyNames[$l0 + 1:])"];
